@@ -208,10 +208,10 @@ PROPS["C05"] = dict(
     outside=["arbitrary contents beyond 16 (24) bytes; extension chains longer than the bytes available within that bound", "storage buffers larger than 6 bytes", "memories with more than 2 slots"],
 )
 
-C17_SIMPLE_Q = ["provision_s1_empty", "provision_s1_some", "provision_s1_full", "provision_s1_small", "provision_s1_small_full", "provision_s2_full",
+C17_SIMPLE_Q = ["provision_s1_occ_free2", "provision_s2_occ2_free2", "take_s3", "new_frag_s3", "provision_s1_empty", "provision_s1_some", "provision_s1_full", "provision_s1_small", "provision_s1_small_full", "provision_s2_full",
                 "new_pdu_s1_empty", "new_pdu_s1_some", "new_pdu_s2", "take_s1_empty", "take_s1_occ", "take_s2_one", "take_s2_both",
                 "new_frag_s1_empty_nobuf", "new_frag_s1_empty", "new_frag_s1_occ", "new_frag_s2", "save_s1_empty", "save_s1_occ", "save_s2"]
-C17_SIMPLE_T = ["take_s3", "new_frag_s3", "save_s3", "provision_s3"]
+C17_SIMPLE_T = ["save_s3", "provision_s3"]
 C17_REF = ["take_s1_empty", "new_frag_s1_empty_nobuf", "provision_s1_some", "provision_s1_full", "provision_s1_small", "new_pdu_s1_empty", "new_pdu_s1_some", "take_s1_occ", "take_s2_both",
            "new_frag_s1_empty", "new_frag_s1_occ", "new_frag_s2", "save_s1_occ", "save_s2"]
 C17_BOUNDS = "one trait operation with symbolic arguments (any fragment id, any context) from every state of the named heap shape (slots 1/2/3, slots empty or occupied, 0..capacity free buffers of sizes below/at/above the configured 4 bytes); contexts, buffer contents symbolic; post-state observed by draining through the trait"
@@ -555,3 +555,6 @@ for _p in ("C01", "C02", "C03", "C08", "C10"):
         "arbitrary CONTENTS beyond the byte tier: the all-size members carry one symbolic byte in an otherwise zero payload (position and length arithmetic for every size; not every content)",
         "more than 2 slots; packets with extension headers are covered by the C13 members only"]
 PROPS["C15"]["harnesses"] = [h for h in PROPS["C15"]["harnesses"]]
+
+PROPS["C13"]["harnesses"] += [H("c13::rx_first_bc_o2_lean", bounds="first fragment, broadcast label, one optional 2-byte extension (symbolic id / data), payload 0..=2, any total length > payload, arbitrary tail up to 16 bytes; RefMem 1 slot",
+                                unwind=6, unwindset={"iterate_over_extension_header": 3, "header_extension9Extension": 3, "memcmp": 8}, stubs=["read_gse_header -> first/broadcast spec stub (C14 lemma)"], cost=300, timeout=1500, mem_gb=16)]
